@@ -58,8 +58,9 @@ PROPS = {}
 PROPS["C01"] = {
     "alternatives": [{
         "name": "honest-run",
-        "clauses": star(ALL_FNS), "exclude": SOUND,
-        "theorems": ["thm_c01_honest_run", "lemma_oprf_unblind", "lemma_oprf_output_blind_independent", "lemma_unmask", "lemma_xor_involution"],
+        "clauses": [],
+         "supporting": star(ALL_FNS), "exclude": SOUND,
+         "theorems": ["thm_c01_honest_run", "lemma_oprf_unblind", "lemma_oprf_output_blind_independent", "lemma_unmask", "lemma_xor_involution"],
     }],
     "witness": "c01",
     "explanation": "thm_c01_honest_run composes the eight real API steps (production cfg branch of blind(), abstract suite lengths and primitives = all 20 suites at once) for arbitrary password / credential id / identities / context / KSF / tapes and proves: every step Ok, equal session keys, login export key == registration export key, reported server key == setup key. Every value/completeness clause of every function under contract is required; rejection-only clauses are not (C01 still holds without them).",
@@ -69,15 +70,12 @@ PROPS["C01"] = {
 PROPS["C02"] = {
     "alternatives": [
         {"name": "envelope-gate",
-         "clauses": [(O + "ClientLogin::finish", "rp"), (O + "ClientLogin::finish", "sound_env"), (O + "ClientLogin::finish", "errkind"), (O + "ClientLogin::finish", "reflect"),
-                     (O + "get_password_derived_key", "*"), (O + "unmask_response", "*"), (E + "Envelope::open", "sound"), (E + "Envelope::open", "errkind"), (E + "Envelope::open", "rfc"),
-                     (E + "Envelope::open", "ids_err"), (E + "Envelope::open", "nocustom"), (E + "Envelope::open_raw", "*"), (E + "recover_keys_internal", "*"), (O + "bytestrings_from_identifiers", "*"), (E + "construct_aad", "*"),
-                     (E + "Envelope::deserialize", "*"), (K + "PublicKey::deserialize", "*"), (O + "blind", "*")],
+         "clauses": [(O + "ClientLogin::finish", "rp"), (O + "ClientLogin::finish", "sound_env"), (O + "ClientLogin::finish", "errkind"), (O + "ClientLogin::finish", "reflect"), (E + "Envelope::open", "sound"), (E + "Envelope::open", "errkind"), (E + "Envelope::open", "ids_err"), (E + "Envelope::open", "nocustom"), (E + "Envelope::open_raw", "sound"), (E + "Envelope::open_raw", "errkind")],
+         "supporting": [(O + "get_password_derived_key", "*"), (O + "unmask_response", "*"), (E + "Envelope::open", "rfc"), (E + "Envelope::open_raw", "*"), (E + "recover_keys_internal", "*"), (O + "bytestrings_from_identifiers", "*"), (E + "construct_aad", "*"), (E + "Envelope::deserialize", "*"), (K + "PublicKey::deserialize", "*"), (O + "blind", "*")],
          "theorems": ["lemma_c02_rp_differs", "thm_c02_reject_env", "thm_c02_real_env", "lemma_frame_split"]},
         {"name": "server-mac-gate",
-         "clauses": [(O + "ClientLogin::finish", "rp"), (O + "ClientLogin::finish", "sound_mac"), (O + "ClientLogin::finish", "errkind"), (O + "ClientLogin::finish", "reflect"),
-                     (O + "get_password_derived_key", "*"), (O + "unmask_response", "*"), (E + "recover_keys_internal", "*"), (T + "TripleDh::generate_ke3", "*"), (T + "derive_3dh_keys", "*"),
-                     (T + "hkdf_expand_label_extracted", "*"), (T + "hkdf_expand_label", "*"), (T + "derive_secrets", "*"), (O + "blind", "*")],
+         "clauses": [(O + "ClientLogin::finish", "rp"), (O + "ClientLogin::finish", "sound_mac"), (O + "ClientLogin::finish", "errkind"), (O + "ClientLogin::finish", "reflect"), (T + "TripleDh::generate_ke3", "sound"), (T + "TripleDh::generate_ke3", "errkind"), (T + "TripleDh::generate_ke3", "ctx_err")],
+         "supporting": [(O + "get_password_derived_key", "*"), (O + "unmask_response", "*"), (E + "recover_keys_internal", "*"), (T + "TripleDh::generate_ke3", "*"), (T + "derive_3dh_keys", "*"), (T + "hkdf_expand_label_extracted", "*"), (T + "hkdf_expand_label", "*"), (T + "derive_secrets", "*"), (O + "blind", "*")],
          "theorems": ["lemma_c02_rp_differs", "thm_c02_reject_mac", "thm_c02_real_mac", "lemma_frame_split"]},
     ],
     "witness": "c02",
@@ -89,13 +87,9 @@ PROPS["C02"] = {
 PROPS["C03"] = {
     "alternatives": [{
         "name": "mac-gate",
-        "clauses": [
-            (T + "TripleDh::finish_ke", "*"), (O + "ServerLogin::finish", "*"),
-            (T + "Ke3Message::deserialize", "*"), (M + "CredentialFinalization::deserialize", "*"),
-            (T + "Ke2State::deserialize", "*"), (T + "Ke2State::serialize", "*"), (O + "ServerLogin::deserialize", "*"), (O + "ServerLogin::serialize", "*"),
-            (T + "TripleDh::generate_ke2", "rfc"), (O + "ServerLogin::start", "rfc"), (ER + "check_slice_size", "*"),
-        ],
-        "theorems": ["thm_c03_exact", "thm_c03_expected_tag", "thm_c03_reload"],
+        "clauses": [(T + "TripleDh::finish_ke", "*"), (O + "ServerLogin::finish", "*"), (T + "Ke3Message::deserialize", "*"), (M + "CredentialFinalization::deserialize", "*"), (ER + "check_slice_size", "*"), (O + "ServerLogin::start", "state")],
+         "supporting": [(T + "Ke2State::deserialize", "*"), (T + "Ke2State::serialize", "*"), (O + "ServerLogin::deserialize", "*"), (O + "ServerLogin::serialize", "*"), (T + "TripleDh::generate_ke2", "rfc")],
+         "theorems": ["thm_c03_exact", "thm_c03_expected_tag", "thm_c03_reload"],
     }],
     "witness": "c03",
     "explanation": "ServerLogin::finish(st, m) is Ok <=> m == HMAC(st.km3, st.hashed_transcript), proved for all states (real or fake record) and all byte strings m on the real finish_ke / ServerLogin::finish / decoders; on Err the error is InvalidLoginError and no key is returned; the expected tag of a state produced by ServerLogin::start is the RFC 9807 client MAC of that session's transcript; a reloaded state expects the same tag.",
@@ -106,11 +100,9 @@ PROPS["C03"] = {
 PROPS["C04"] = {
     "alternatives": [{
         "name": "server-mac-over-transcript",
-        "clauses": [(O + "ClientLogin::finish", "reflect"), (O + "ClientLogin::finish", "sound_mac"), (O + "ClientLogin::finish", "errkind"), (O + "ClientLogin::finish", "rp"),
-                    (T + "TripleDh::generate_ke3", "*"), (T + "derive_3dh_keys", "*"), (T + "hkdf_expand_label_extracted", "*"), (T + "hkdf_expand_label", "*"), (T + "derive_secrets", "*"),
-                    (M + "CredentialResponse::deserialize", "*"), (M + "CredentialResponse::serialize_without_ke", "*"), (M + "CredentialRequest::serialize_iter", "*"),
-                    (T + "Ke2Message::to_bytes_without_mac", "*"), (T + "Ke1Message::serialize", "*"), (O + "MaskedResponse::iter", "*"), (T + "Ke2Message::deserialize", "*"), (O + "MaskedResponse::deserialize", "*")],
-        "theorems": ["thm_c04_mac_only", "thm_c04_fields", "thm_transcript_agreement", "lemma_preamble_injective", "lemma_frame_split", "lemma_fixed_split"],
+        "clauses": [(O + "ClientLogin::finish", "reflect"), (O + "ClientLogin::finish", "sound_mac"), (O + "ClientLogin::finish", "errkind"), (O + "ClientLogin::finish", "rp"), (T + "TripleDh::generate_ke3", "sound"), (T + "TripleDh::generate_ke3", "errkind"), (T + "TripleDh::generate_ke3", "ctx_err"), (M + "CredentialResponse::deserialize", "*"), (M + "CredentialResponse::serialize_without_ke", "*"), (M + "CredentialRequest::serialize_iter", "*"), (T + "Ke2Message::to_bytes_without_mac", "*"), (T + "Ke1Message::serialize", "*"), (O + "MaskedResponse::iter", "*"), (T + "Ke2Message::deserialize", "*"), (O + "MaskedResponse::deserialize", "*")],
+         "supporting": [(T + "TripleDh::generate_ke3", "*"), (T + "derive_3dh_keys", "*"), (T + "hkdf_expand_label_extracted", "*"), (T + "hkdf_expand_label", "*"), (T + "derive_secrets", "*")],
+         "theorems": ["thm_c04_mac_only", "thm_c04_fields", "thm_transcript_agreement", "lemma_preamble_injective", "lemma_frame_split", "lemma_fixed_split"],
     }],
     "witness": "c04",
     "explanation": "The real finish step accepts only if the MAC field equals the RFC server MAC over the client's own transcript (request bytes, OPRF evaluation, masking nonce, masked credentials, server nonce, server ephemeral key, context, identities). thm_c04_mac_only: changing only the MAC is rejected (exact). thm_c04_fields: with the MAC unchanged, acceptance forces every transcript field to equal the server's and the request to be this client's (every single-byte substitution at every offset, every splice leaving one of the two parts genuine).",
@@ -121,11 +113,9 @@ PROPS["C04"] = {
 PROPS["C05"] = {
     "alternatives": [{
         "name": "framed-binding",
-        "clauses": [(O + "bytestrings_from_identifiers", "*"), (E + "construct_aad", "*"), (E + "Envelope::seal", "rfc"), (E + "Envelope::seal", "ok_iff"), (E + "Envelope::seal_raw", "*"),
-                    (E + "Envelope::open", "sound"), (E + "Envelope::open", "rfc"), (E + "Envelope::open_raw", "sound"), (T + "TripleDh::generate_ke2", "rfc"), (T + "TripleDh::generate_ke2", "ctx_err"),
-                    (T + "TripleDh::generate_ke3", "sound"), (T + "TripleDh::generate_ke3", "ctx_err"), (O + "oprf_key_from_seed", "*"), (O + "ServerRegistration::start", "eval"), (O + "ServerLogin::start", "rfc"),
-                    (O + "ClientLogin::finish", "sound_env"), (O + "ClientLogin::finish", "sound_mac"), (O + "ClientRegistration::finish", "rfc")],
-        "theorems": ["thm_c05_login_binding", "thm_c05_envelope_binding", "thm_transcript_agreement", "lemma_preamble_injective", "lemma_cleartext_injective", "lemma_frame_split", "lemma_fixed_split", "lemma_i2osp2_inj", "lemma_i2osp2"],
+        "clauses": [(O + "bytestrings_from_identifiers", "*"), (E + "construct_aad", "*"), (E + "Envelope::open", "sound"), (E + "Envelope::open_raw", "sound"), (T + "TripleDh::generate_ke2", "ctx_err"), (T + "TripleDh::generate_ke3", "sound"), (T + "TripleDh::generate_ke3", "ctx_err"), (O + "oprf_key_from_seed", "*"), (O + "ServerRegistration::start", "eval"), (O + "ServerLogin::start", "eval"), (O + "ClientLogin::finish", "sound_env"), (O + "ClientLogin::finish", "sound_mac")],
+         "supporting": [(E + "Envelope::seal", "rfc"), (E + "Envelope::seal", "ok_iff"), (E + "Envelope::seal_raw", "*"), (E + "Envelope::open", "rfc"), (T + "TripleDh::generate_ke2", "rfc"), (O + "ServerLogin::start", "ke2"), (O + "ServerLogin::start", "mask"), (O + "ClientRegistration::finish", "rfc")],
+         "theorems": ["thm_c05_login_binding", "thm_c05_envelope_binding", "thm_transcript_agreement", "lemma_preamble_injective", "lemma_cleartext_injective", "lemma_frame_split", "lemma_fixed_split", "lemma_i2osp2_inj", "lemma_i2osp2"],
         "kani": {"quick": [("leaf", "i2osp_u2_exact"), ("leaf", "i2osp_u1_exact")], "thorough": [("leaf", "input_from_iter_bounded"), ("leaf", "input_owned_iter_bounded"), ("leaf", "input_label_arrays_bounded")]},
     }],
     "witness": "c05",
@@ -137,10 +127,9 @@ PROPS["C05"] = {
 PROPS["C06"] = {
     "alternatives": [{
         "name": "envelope-binds-server-key",
-        "clauses": [(O + "ServerRegistration::start", "pk"), (O + "ServerSetup::new", "*"), (O + "ServerSetup::new_with_key", "*"), (K + "KeyPair::generate_random", "*"), (K + "KeyPair::public", "*"),
-                    (K + "KeyPair::private", "*"), (O + "ClientRegistration::finish", "rfc"), (O + "ServerLogin::start", "rfc"), (O + "ClientLogin::finish", "pk_out"), (O + "ClientLogin::finish", "sound_env"),
-                    (E + "Envelope::open", "sound"), (E + "Envelope::open_raw", "sound"), (E + "Envelope::seal", "rfc"), (O + "unmask_response", "*"), (O + "mask_response", "*"), (K + "PrivateKey::public_key", "*")],
-        "theorems": ["thm_c05_envelope_binding", "thm_c01_honest_run", "lemma_cleartext_injective", "lemma_unmask"],
+        "clauses": [(O + "ServerRegistration::start", "pk"), (O + "ClientRegistration::finish", "pk_out"), (O + "ClientLogin::finish", "pk_out"), (O + "ClientLogin::finish", "sound_env"), (E + "Envelope::open", "sound"), (E + "Envelope::open_raw", "sound"), (O + "unmask_response", "*")],
+         "supporting": [(O + "ServerSetup::new", "*"), (O + "ServerSetup::new_with_key", "*"), (K + "KeyPair::generate_random", "*"), (K + "KeyPair::public", "*"), (K + "KeyPair::private", "*"), (O + "ClientRegistration::finish", "rfc"), (O + "ServerLogin::start", "mask"), (E + "Envelope::seal", "rfc"), (O + "mask_response", "*"), (K + "PrivateKey::public_key", "*")],
+         "theorems": ["thm_c05_envelope_binding", "thm_c01_honest_run", "lemma_cleartext_injective", "lemma_unmask"],
     }],
     "witness": "c06",
     "explanation": "The key reported at registration is the setup's public key; login masks sk.public_key() (not a stored copy); the client returns the unmasked key; passing the envelope gate on a record sealed under spk_reg forces the live key to equal spk_reg (HMAC collision-freedom + injective CleartextCredentials). Single mechanism: the envelope MAC.",
@@ -151,10 +140,9 @@ PROPS["C06"] = {
 PROPS["C07"] = {
     "alternatives": [{
         "name": "matched-conversations",
-        "clauses": [(O + "ClientLogin::finish", "sound_mac"), (O + "ClientLogin::finish", "rfc"), (O + "ServerLogin::start", "rfc"), (O + "ServerLogin::finish", "*"), (T + "TripleDh::finish_ke", "*"),
-                    (T + "TripleDh::generate_ke1", "*"), (T + "TripleDh::generate_ke2", "rfc"), (T + "TripleDh::generate_ke2", "tape"), (T + "TripleDh::generate_ke3", "sound"), (T + "TripleDh::generate_ke3", "rfc"),
-                    (O + "ClientLogin::start", "*"), (T + "generate_nonce", "*"), (K + "KeyPair::generate_random", "*")],
-        "theorems": ["thm_c07_client_matched", "thm_c07_server_matched", "thm_c07_distinct_sessions", "thm_transcript_agreement", "lemma_km2_injective", "lemma_preamble_injective", "thm_c03_exact"],
+        "clauses": [(O + "ClientLogin::finish", "sound_mac"), (O + "ServerLogin::finish", "*"), (T + "TripleDh::finish_ke", "*"), (T + "TripleDh::generate_ke3", "sound"), (O + "ServerLogin::start", "state")],
+         "supporting": [(O + "ClientLogin::finish", "rfc"), (O + "ServerLogin::start", "ke2"), (O + "ServerLogin::start", "tape"), (T + "TripleDh::generate_ke1", "*"), (T + "TripleDh::generate_ke2", "rfc"), (T + "TripleDh::generate_ke2", "tape"), (T + "TripleDh::generate_ke3", "rfc"), (O + "ClientLogin::start", "*"), (T + "generate_nonce", "*"), (K + "KeyPair::generate_random", "*")],
+         "theorems": ["thm_c07_client_matched", "thm_c07_server_matched", "thm_c07_distinct_sessions", "thm_transcript_agreement", "lemma_km2_injective", "lemma_preamble_injective", "thm_c03_exact"],
     }],
     "witness": "c07",
     "explanation": "Every API step is a function of its arguments and the caller's tape (no statics, no interior state), so a history over a shared server is a set of calls and the routing adversary only chooses which honestly produced message goes to which call. Proved for ARBITRARY pairs of sessions: client acceptance of a MAC some server session computed => same request, context, identities, response fields, same key-schedule input and session key; server acceptance of a finalization some client computed => that client verified this very server MAC over this very transcript; sessions with different nonces / ephemeral keys / requests have different session keys; nonces and ephemeral keys are fresh tape segments per start call.",
@@ -165,10 +153,9 @@ PROPS["C07"] = {
 PROPS["C08"] = {
     "alternatives": [{
         "name": "same-path-after-substitution",
-        "clauses": [(O + "ServerLogin::start", "*"), (M + "RegistrationUpload::dummy", "*"), (O + "ServerRegistration::dummy", "*"), (E + "Envelope::dummy", "*"), (O + "mask_response", "*"),
-                    (O + "oprf_key_from_seed", "*"), (O + "ClientLogin::finish", "errkind"), (O + "ClientLogin::finish", "sound_env"), (T + "TripleDh::finish_ke", "sound"), (T + "TripleDh::finish_ke", "errkind"),
-                    (O + "ServerLogin::finish", "*"), (M + "CredentialResponse::serialize", "*")],
-        "theorems": ["thm_c08_fake_vs_real", "thm_c02_real_env", "thm_c03_exact", "lemma_all_zero_concat"],
+        "clauses": [(O + "ServerLogin::start", "ok"), (O + "ServerLogin::start", "ok_only"), (O + "ServerLogin::start", "eval"), (O + "ServerLogin::start", "state"), (O + "ServerLogin::start", "tape"), (M + "RegistrationUpload::dummy", "*"), (O + "ServerRegistration::dummy", "*"), (E + "Envelope::dummy", "*"), (O + "ClientLogin::finish", "errkind"), (T + "TripleDh::finish_ke", "sound"), (T + "TripleDh::finish_ke", "errkind"), (O + "ServerLogin::finish", "*")],
+         "supporting": [(O + "ServerLogin::start", "mask"), (O + "ServerLogin::start", "ke2"), (O + "mask_response", "*"), (O + "oprf_key_from_seed", "*"), (O + "ClientLogin::finish", "sound_env"), (M + "CredentialResponse::serialize", "*")],
+         "theorems": ["thm_c08_fake_vs_real", "thm_c02_real_env", "thm_c03_exact", "lemma_all_zero_concat"],
     }],
     "witness": "c08",
     "explanation": "ServerLogin::start's postcondition for password_file == None is the SAME spec function as for Some(rec) with rec := (fake public key, masking key = next Nh tape bytes, all-zero envelope): same evaluation smul(request, OprfKey(seed, cred_id)) independent of record and static key, same types hence same lengths, masking nonce / server nonce / ephemeral key from consecutive disjoint tape segments; both calls succeed or fail together. Client side: a failing envelope gate yields InvalidLoginError (as for a wrong password); server side: C03.",
@@ -182,7 +169,7 @@ PROPS["C09"] = {
         "theorems": ["lemma_i2osp1", "lemma_i2osp2", "lemma_preamble_flat", "thm_c03_expected_tag"],
         "kani": {"quick": [("leaf", "i2osp_u2_exact"), ("leaf", "i2osp_u1_exact")], "thorough": [("api", "x25519_derive_is_clamp")]},
     }],
-    "witness": "c09",
+    "witness": "c01",
     "explanation": "Every output of every step (six messages, password file, export key, session key, server and client states as witnesses of the random choices) is proved equal to the RFC 9807 / RFC 9497 formula of verus/spec_rfc.rs applied to the inputs and to the tape segments consumed, in the order consumed; labels and constants are extracted from the source every run. Oracle transcription is cross-checked against the RFC vectors shipped in the repo by the replay crate (testing).",
     "assumptions": [A_PRELUDE, "hkdf/hmac/sha2/voprf implement RFC 5869 / 2104 / 9497 (assumed; sampled against RFC vectors)", "Nseed = Nsk of the KE group (repo) where RFC 9807 fixes 32; per the property ('that suite's own lengths') not flagged"],
 }
@@ -201,9 +188,9 @@ PROPS["C13"] = {
 PROPS["C14"] = {
     "alternatives": [{
         "name": "oblivious-keyed",
-        "clauses": [(O + "blind", "*"), (O + "ClientRegistration::start", "*"), (O + "ClientLogin::start", "*"), (O + "ServerRegistration::start", "*"), (O + "ServerLogin::start", "rfc"),
-                    (O + "oprf_key_from_seed", "*"), (O + "get_password_derived_key", "*"), (O + "ClientRegistration::finish", "rfc")],
-        "theorems": ["thm_c14_blind_independent", "thm_c14_request_varies", "lemma_oprf_unblind", "lemma_oprf_output_blind_independent"],
+        "clauses": [(O + "blind", "*"), (O + "ClientRegistration::start", "*"), (O + "ClientLogin::start", "ok_iff"), (O + "ClientLogin::start", "conf"), (O + "ServerRegistration::start", "eval"), (O + "ServerRegistration::start", "ok_iff"), (O + "ServerLogin::start", "eval"), (O + "oprf_key_from_seed", "*")],
+         "supporting": [(O + "get_password_derived_key", "*"), (O + "ClientRegistration::finish", "rfc")],
+         "theorems": ["thm_c14_blind_independent", "thm_c14_request_varies", "lemma_oprf_unblind", "lemma_oprf_output_blind_independent"],
     }],
     "witness": "c14",
     "explanation": "The production (cfg(not(test))) blind() calls voprf's blind with a scalar drawn from the caller's tape: request = smul(H2G(pw), scalar_of_tape(segment)); randomized password and masking key are independent of the blind (OPRF algebra); the evaluation is smul(request, OprfKey(seed, cred_id)) at registration and login, with no dependence on static key or password file; the key is DeriveKeyPair(Expand(seed, cred_id || 'OprfKey')).",
@@ -213,9 +200,9 @@ PROPS["C14"] = {
 PROPS["C15"] = {
     "alternatives": [{
         "name": "ksf-selection-binding",
-        "clauses": [(O + "get_password_derived_key", "*"), (O + "ClientRegistration::finish", "ksf_err"), (O + "ClientRegistration::finish", "rfc"), (O + "ClientLogin::finish", "ksf_err"), (O + "ClientLogin::finish", "rp"),
-                    ("ksf::Identity::hash", "*")],
-        "theorems": ["thm_c15_default_equiv", "thm_c15_ksf_bound"],
+        "clauses": [(O + "get_password_derived_key", "*"), (O + "ClientRegistration::finish", "ksf_err"), (O + "ClientLogin::finish", "ksf_err"), ("ksf::Identity::hash", "*")],
+         "supporting": [(O + "ClientRegistration::finish", "rfc"), (O + "ClientLogin::finish", "rp")],
+         "theorems": ["thm_c15_default_equiv", "thm_c15_ksf_bound"],
     }],
     "witness": "c15",
     "explanation": "The hardened value is ksf_spec(params.ksf or the suite default, oprf_output), concatenated into Extract; both finish steps forward params.ksf; a KSF error is returned as Err(LibraryError(e)); Some(&default) == None; different stretching results give different randomized passwords. The contract pins the VALUE, so ksf(ksf(y)) or no call are caught; a redundant call whose result is discarded is unobservable.",
@@ -226,9 +213,9 @@ PROPS["C15"] = {
 PROPS["C16"] = {
     "alternatives": [{
         "name": "export-key",
-        "clauses": [(E + "Envelope::seal_raw", "*"), (E + "Envelope::open_raw", "export"), (E + "Envelope::seal", "rfc"), (E + "Envelope::seal", "tape"), (E + "Envelope::open", "rfc"),
-                    (O + "ClientRegistration::finish", "rfc"), (O + "ClientLogin::finish", "rfc")],
-        "theorems": ["thm_c01_honest_run", "thm_c16_separated", "thm_c16_label_separation"],
+        "clauses": [],
+         "supporting": [(E + "Envelope::seal_raw", "*"), (E + "Envelope::open_raw", "export"), (E + "Envelope::seal", "rfc"), (E + "Envelope::seal", "tape"), (E + "Envelope::open", "rfc"), (O + "ClientRegistration::finish", "rfc"), (O + "ClientLogin::finish", "rfc")],
+         "theorems": ["thm_c01_honest_run", "thm_c16_separated", "thm_c16_label_separation"],
     }],
     "witness": "c16",
     "explanation": "export_key == Expand(randomized_pwd, nonce || 'ExportKey', Nh) at seal and at open, hence equal for every login of one registration regardless of session randomness / context (thm_c01); a new registration draws a new nonce from a fresh tape segment => different key; separated from auth key and masking key by label. Every message field is proved to be a specific other term (client pk, masking key, nonce, tag, masked bytes, MACs).",
@@ -239,8 +226,9 @@ PROPS["C16"] = {
 PROPS["C17"] = {
     "alternatives": [{
         "name": "functional-contracts",
-        "clauses": star(ALL_FNS), "exclude": SOUND,
-        "theorems": ["thm_c17_server_login_deterministic", "thm_c17_disjoint_segments"],
+        "clauses": [(O + "blind", "*"), (O + "ServerLogin::start", "tape"), (O + "ServerSetup::new", "tape"), (O + "ServerSetup::new_with_key", "tape"), (E + "Envelope::seal", "tape"), (O + "ClientRegistration::start", "tape"), (O + "ClientRegistration::finish", "tape"), (M + "RegistrationUpload::dummy", "tape"), (O + "ServerRegistration::dummy", "tape"), (T + "generate_nonce", "*"), (T + "TripleDh::generate_ke1", "tape"), (T + "TripleDh::generate_ke2", "tape"), (K + "KeyPair::generate_random", "tape")],
+         "supporting": star(ALL_FNS), "exclude": SOUND,
+         "theorems": ["thm_c17_server_login_deterministic", "thm_c17_disjoint_segments"],
     }],
     "witness": "c17",
     "explanation": "All postconditions are equalities with spec functions of (arguments, tape id, tape position): identical tapes give identical outputs and the prelude offers no other entropy source (a body calling OsRng/thread_rng would not resolve => undecided). Every random value (blind, envelope nonce, masking nonce, client/server nonces, ephemeral seeds, OPRF seed, key-pair seeds, fake masking key) IS a tape segment (or DeriveKeyPair / scalar_of_tape of one); segments are consecutive and disjoint and the position advances by the stated amounts. The production cfg branch of blind() is what is extracted.",
@@ -250,11 +238,9 @@ PROPS["C17"] = {
 PROPS["C18"] = {
     "alternatives": [{
         "name": "generic-secret-key",
-        "clauses": [(O + "ServerLogin::start", "*"), (O + "ServerSetup::new_with_key", "*"), (O + "ServerSetup::serialize", "*"), (O + "ServerSetup::deserialize", "*"), (O + "ServerSetup::keypair", "*"),
-                    (K + "KeyPair::from_private_key", "*"), (K + "KeyPair::from_private_key_slice", "*"), (T + "derive_3dh_keys", "*"), (T + "TripleDh::generate_ke2", "*"),
-                    (ER + "InternalError::into_custom", "*"), (ER + "ProtocolError::into_custom", "*"), (O + "ServerRegistration::start", "*"),
-                    (K + "PrivateKey::diffie_hellman", "*"), (K + "PrivateKey::public_key", "*"), (K + "PrivateKey::serialize", "*"), (K + "PrivateKey::deserialize", "*")],
-        "theorems": ["thm_c18_transparent"],
+        "clauses": [(O + "ServerLogin::start", "err_pk"), (O + "ServerLogin::start", "err_dh"), (O + "ServerLogin::start", "ok"), (O + "ServerLogin::start", "ok_only"), (O + "ServerSetup::new_with_key", "*"), (O + "ServerSetup::serialize", "*"), (O + "ServerSetup::deserialize", "*"), (O + "ServerSetup::keypair", "*"), (K + "KeyPair::from_private_key", "*"), (K + "KeyPair::from_private_key_slice", "*"), (T + "derive_3dh_keys", "err_S"), (T + "derive_3dh_keys", "ok"), (T + "TripleDh::generate_ke2", "err_S"), (T + "TripleDh::generate_ke2", "ok"), (ER + "InternalError::into_custom", "*"), (ER + "ProtocolError::into_custom", "*"), (K + "PrivateKey::diffie_hellman", "*"), (K + "PrivateKey::public_key", "*"), (K + "PrivateKey::serialize", "*"), (K + "PrivateKey::deserialize", "*")],
+         "supporting": [(O + "ServerLogin::start", "*"), (T + "derive_3dh_keys", "*"), (T + "TripleDh::generate_ke2", "*"), (O + "ServerRegistration::start", "*")],
+         "theorems": ["thm_c18_transparent"],
     }],
     "witness": "c18",
     "explanation": "The extracted code stays generic in S: SecretKey<KG>; ServerLogin::start's contract is stated over S's Result-valued spec operations: exactly one public_key and one diffie_hellman; on Err(e) the result is Err(LibraryError(e)) and — by the result type — no message or state; for S = PrivateKey the same contract specialises to KG::pk_of / KG::dh of the held scalar (substitution). into_custom's unreachable!() arms are unreachable (precondition proved at every call site).",
